@@ -924,14 +924,23 @@ def check_retry_structure(ctx, m, ex):
 
 def check_limit_domain(ctx, m, ex):
     """The failure limit is inspected only through `is None`, comparisons with constants and `- 1`: {None, <= 1, > 1} are all its classes."""
-    from sa.props._lib_j import taint
     nm = _norm_cs(ctx)
     ok, where = None, "?"
     for label, f, recv in _core_and_machine_functions(nm):
         for lp in ast.walk(f):
             if isinstance(lp, ast.For) and isinstance(lp.target, ast.Tuple) and len(lp.target.elts) == 2 and isinstance(lp.target.elts[1], ast.Name) \
                     and src(lp.iter) == f"{recv}.awaitingConnected" and any(isinstance(x, (ast.Compare, ast.BinOp)) for x in ast.walk(lp)):
-                tainted = taint(f, [lp.target.elts[1].id])
+                tainted = {lp.target.elts[1].id}
+                for _ in range(4):   # scalars computed from the limit alone (renamed by inlining, conditional expressions, `- 1`)
+                    for st in ast.walk(lp):
+                        if isinstance(st, ast.Assign) and not any(isinstance(x, (ast.Call, ast.List, ast.Tuple)) and not (isinstance(x, ast.Tuple) and st.value is x)
+                                                                    for x in ast.walk(st.value)):
+                            names = {x.id for x in ast.walk(st.value) if isinstance(x, ast.Name)}
+                            if names and names <= tainted | {"True", "False", "None"}:
+                                for t_ in st.targets:
+                                    for x in ast.walk(t_):
+                                        if isinstance(x, ast.Name):
+                                            tainted.add(x.id)
                 where, ok = label, True
                 for n in ast.walk(lp):
                     if isinstance(n, ast.Name) and n.id in tainted and isinstance(n.ctx, ast.Load):
